@@ -90,6 +90,67 @@ fn triggers(w: &World, graphs: &[&ModuleGraph]) -> Vec<&'static str> {
   t
 }
 
+/// successive builds with an npm resolver: `npm:` roots and modules importing `npm:` specifiers added
+/// by a further build end up as in one build of all the roots
+fn npm_incremental_part(report: &mut Report, rng: &mut Rng, n: usize) {
+  use deno_graph::source::MemoryLoader;
+  const POOL: &[&str] = &["npm:chalk@5", "npm:chalk@5/sub", "npm:@types/node@^20", "npm:left-pad", "npm:gone@1"];
+  for i in 0..n {
+    let mut loader = MemoryLoader::default();
+    let mut roots: Vec<ModuleSpecifier> = vec![];
+    let mut texts = vec![];
+    for k in 0..2 + rng.below(2) {
+      if rng.chance(1, 3) {
+        // a root that is an npm specifier itself
+        roots.push(ModuleSpecifier::parse(POOL[rng.below(POOL.len())]).unwrap());
+        continue;
+      }
+      let mut t = String::new();
+      for j in 0..rng.below(3) {
+        t.push_str(&format!("import * as n{} from \"{}\";\n", j, POOL[rng.below(POOL.len())]));
+      }
+      let u = format!("file:///r{}.ts", k);
+      loader.add_source_with_text(&u, &t);
+      texts.push((u.clone(), t));
+      roots.push(ModuleSpecifier::parse(&u).unwrap());
+    }
+    roots.dedup();
+    let resolver = crate::c01::TableNpmResolver { failing: if i % 2 == 0 { vec!["gone".into()] } else { vec![] } };
+    let build = |g: &mut ModuleGraph, rs: Vec<ModuleSpecifier>| {
+      crate::build::block_on(g.build(rs, vec![], &loader, deno_graph::BuildOptions { npm_resolver: Some(&resolver), ..Default::default() }));
+    };
+    let mut at_once = ModuleGraph::new(deno_graph::GraphKind::All);
+    build(&mut at_once, roots.clone());
+    let cut = 1 + rng.below(roots.len().max(2) - 1).min(roots.len() - 1);
+    let mut stepwise = ModuleGraph::new(deno_graph::GraphKind::All);
+    build(&mut stepwise, roots[..cut].to_vec());
+    build(&mut stepwise, roots[cut..].to_vec());
+    report.evaluations += 1;
+    let show = |g: &ModuleGraph| -> BTreeMap<String, String> {
+      let mut m = BTreeMap::new();
+      for (k, s, _) in g.verif_slots() {
+        m.insert(k.to_string(), match s { None => "pending".to_string(), Some(Ok(md)) => format!("module {:?}", std::mem::discriminant(md)), Some(Err(e)) => format!("error {}", e.to_string().chars().take(60).collect::<String>()) });
+      }
+      for (a, b) in &g.redirects {
+        m.insert(format!("redirect {}", a), b.to_string());
+      }
+      m.insert("roots".into(), format!("{:?}", g.roots.iter().map(|r| r.as_str()).collect::<Vec<_>>()));
+      m
+    };
+    let (a, b) = (show(&at_once), show(&stepwise));
+    if a != b {
+      let mut diffs = vec![];
+      for k in a.keys().chain(b.keys()).collect::<BTreeSet<_>>() {
+        if a.get(k) != b.get(k) {
+          diffs.push(format!("{}: at once {:?}, in two builds {:?}", k, a.get(k), b.get(k)));
+        }
+      }
+      report.fail("oracle", "incremental-build-differs-from-one-build", diffs.join("\n"), json!({"modules": texts, "roots": roots.iter().map(|r| r.as_str()).collect::<Vec<_>>(), "second_build_from_root": cut, "failing_npm_packages": resolver.failing}));
+    }
+    report.count("npm-resolver:successive-builds");
+  }
+}
+
 pub fn run(tier: &str, seed: u64) -> Report {
   let mut report = Report::new("C19");
   report.rule = "histories over generated worlds (as C01, 2-4 roots): (a) every ordered split of the root list into 1-3 \
@@ -357,6 +418,7 @@ pub fn run(tier: &str, seed: u64) -> Report {
       report.nontrivial.insert(format!("{:?}/edit{}", w.kind, e));
     }
   }
+  npm_incremental_part(&mut report, &mut rng, if tier == "thorough" { 3000 } else { 300 });
   batch.finish(&mut report, "C19");
   report
 }
